@@ -104,9 +104,9 @@ func (sms *sqlMetadataStore) PutObject(ctx context.Context, tx *sql.Tx, bucketNa
 		if err != nil {
 			return nil, err
 		}
-		if opts != nil && opts.IfNoneMatchStar && nullVersionEntity != nil {
-			return nil, metadatastore.ErrPreconditionFailed
-		}
+		// A null version that is not current (it lies beneath a delete marker)
+		// does not make the key exist: If-None-Match was decided above on the
+		// current version, and this write replaces the old null version.
 		nullVersion := "null"
 		objectEntity.VersionID = &nullVersion
 
